@@ -20,9 +20,10 @@ from sim import kernel, simfs, build
 ID = 'C14'
 LEVEL = 'fault_enumeration'
 RULE = ('per sampled assemble() call the fault plan is enumerated: OSError (ENOSPC/EIO/EACCES) at every operation index '
-        'of the recorded fault-free call on the simulated disk (open/write/close of .fjm and .fjd), a short write at every '
-        'write, a crash after every byte of the .fjm, pending SIGINT at seeded instructions of the create-binary stage; '
-        'plus one failing program per source-error class. evaluations = faulted assemble() calls; non-trivial: the call '
+        'of the recorded fault-free call (open/write/close/replace/unlink on .fjm and .fjd), a short write at every write, a '
+        'SIGINT that arrived while each of these operations was inside the kernel (pending when the call returns), a '
+        'crash after every byte of the .fjm, pending SIGINT at EVERY bytecode instruction of the create-binary stage; '
+        'the real `fj --asm` command as a subprocess whose progress-line reader goes away (from the start / during the create-binary stage); plus one failing program per source-error class. evaluations = faulted assemble() calls; non-trivial: the call '
         'raised after the output file had been opened; distinct = (program, options, fault plan)')
 STATE_MEASURE = 'distinct (fault kind, file the fault hit, operation kind, state of the output afterwards) tuples'
 ASSUMPTIONS = ['only the clause "a failed assembly never leaves behind an output file that loads as a program" is '
@@ -71,7 +72,6 @@ def setup_worker():
     OUT_DIR.mkdir(exist_ok=True)
     OUT, DBG = str(OUT_DIR / 'out.fjm'), str(OUT_DIR / 'out.fjd')
     FS = simfs.FaultFS(OUT_DIR)
-    FS.install()
     SRC_DIR = C.scratch_dir() / 'src'
     SRC_DIR.mkdir(exist_ok=True)
     for name, (stl, text) in list(PROGRAMS.items()) + list(FAILING.items()):
@@ -79,6 +79,7 @@ def setup_worker():
     old_program_bytes()
     from sim import sigint
     _sig = sigint.helper()
+    FS.install(set_interrupt=_sig.set_interrupt)
     import flipjump
     from flipjump.fjm import fjm_writer
     from flipjump.utils import functions
@@ -104,7 +105,82 @@ def plan(tier):
     return {'cases': 320, 'chunk': 4, 'budget_s': 80, 'case_timeout_s': 300, 'minimise_budget_s': 30}
 
 
+def run_cli(case):
+    """the `fj --asm` command as a real subprocess (unbuffered stdout, as in CI/containers) whose progress lines are
+    piped into a reader that goes away: from the start, or during the create-binary stage (made deterministic with a
+    named pipe as the debugging file: fj blocks on opening it after it wrote the .fjm and before it prints the
+    stage's time). A failed command must not leave a loadable output behind."""
+    import select
+    import shutil
+    import subprocess
+    import time
+    work = OUT_DIR / 'cli'
+    shutil.rmtree(work, ignore_errors=True)
+    work.mkdir()
+    stl, text = PROGRAMS[case['program']]
+    src = work / 'prog.fj'
+    src.write_text(text)
+    out = work / 'out.fjm'
+    fifo = work / 'out.fjd'
+    os.mkfifo(fifo)
+    cmd = [sys.executable, '-u', '-c', 'from flipjump.flipjump_cli import main; main()', '--asm', '-w', str(case['w']),
+           '-v', str(case['version']), '-o', str(out), '-d', str(fifo)] + ([] if stl else ['--no_stl']) + [str(src)]
+    env = dict(os.environ)
+    env.pop('LD_PRELOAD', None)
+    fj = subprocess.Popen(cmd, env=env, stdin=subprocess.DEVNULL, stdout=subprocess.PIPE, stderr=subprocess.DEVNULL,
+                          bufsize=0, cwd=str(work))
+    fired = False
+    try:
+        fd = fj.stdout.fileno()
+        data = b''
+        deadline = time.time() + 60
+        if case['when'] == 'during-create-binary':
+            while b'create binary:' not in data and time.time() < deadline:
+                ready, _, _ = select.select([fd], [], [], 1.0)
+                if ready:
+                    chunk = os.read(fd, 4096)
+                    if not chunk:
+                        break
+                    data += chunk
+        fj.stdout.close()          # the reader of the progress lines goes away
+        fired = True
+        # let the command get on: open the other end of the debugging-file pipe and drain it
+        ffd = os.open(fifo, os.O_RDONLY | os.O_NONBLOCK)
+        t_end = time.time() + 60
+        while fj.poll() is None and time.time() < t_end:
+            try:
+                os.read(ffd, 65536)
+            except BlockingIOError:
+                pass
+            time.sleep(0.01)
+        os.close(ffd)
+        rc = fj.wait(timeout=30)
+    finally:
+        if fj.poll() is None:
+            fj.kill()
+            fj.wait()
+    state = 'absent'
+    if out.exists():
+        state = 'loadable' if loads(out) else ('empty' if not out.read_bytes() else 'not-loadable')
+    violations = []
+    if rc != 0 and state == 'loadable':
+        how = f'killed by signal {-rc}' if rc < 0 else f'exit status {rc}'
+        violations.append(_v('failed-assembly-left-loadable-file', {'kind': 'cli-stdout-reader-gone', 'when': case['when']},
+                             how, state))
+    shutil.rmtree(work, ignore_errors=True)
+    return {'violations': violations, 'probes': {'cli_runs': 1, 'cli_failed_runs': 1 if rc != 0 else 0}, 'faults':
+            {'cli-stdout-reader-gone:' + case['when']: [1, 1 if (fired and rc != 0) else 0]},
+            'states': {f"cli|{case['when']}|rc{'0' if rc == 0 else ('sig' if rc < 0 else 'err')}|{state}"}, 'steps': 1,
+            'nontrivial': rc != 0, 'digest': kernel.digest_of([case, state, rc != 0])}
+
+
 def gen(rng, index, tier):
+    if index % 16 == 5:
+        name = rng.choice(sorted(PROGRAMS))
+        stl = PROGRAMS[name][0]
+        return {'kind': 'cli', 'program': name, 'w': rng.choice([32, 64]) if stl else rng.choice([16, 32, 64]),
+                'version': rng.choice([0, 1, 2, 3]), 'when': rng.choice(['during-create-binary', 'during-create-binary',
+                                                                          'from-the-start'])}
     if index % 10 == 9:
         name = rng.choice(sorted(FAILING))
         return {'program': name, 'failing': True, 'w': rng.choice([16, 32, 64]), 'version': rng.choice([0, 1, 2, 3]),
@@ -176,18 +252,15 @@ def call_assemble(case, fault, instr_n=-1, stdout_fail_at=None):
     import flipjump
     from flipjump.fjm.fjm_consts import FJMVersion
     stl, _ = (FAILING if case['failing'] else PROGRAMS)[case['program']]
-    FS.reset_log()
-    for p in (OUT, DBG):
+    real_unlink = getattr(os.unlink, '_verif_real', os.unlink)      # the harness's own clean-up is not an operation
+    target = OUT_DIR / 'builds' / 'prog-7.fjm'
+    for p in (OUT, DBG, target, OUT + '.tmp', DBG + '.tmp'):
         try:
-            os.unlink(p)
+            real_unlink(p)
         except OSError:
             pass
+    FS.reset_log()
     before = None
-    target = OUT_DIR / 'builds' / 'prog-7.fjm'
-    try:
-        os.unlink(target)
-    except OSError:
-        pass
     if case.get('out_symlink'):
         # the requested output path is a symbolic link to a regular file (e.g. latest.fjm -> builds/prog-7.fjm)
         target.parent.mkdir(exist_ok=True)
@@ -224,6 +297,7 @@ def call_assemble(case, fault, instr_n=-1, stdout_fail_at=None):
         finally:
             # an interrupt that surfaces only after assemble() has returned hit the harness, not the assembly
             cnt, sigfired = _sig.status()
+            call_assemble.instr_events = cnt
             _sig.arm(-1)
             kernel.drain_interrupt()
     except kernel.WatchdogTimeout:
@@ -254,6 +328,8 @@ def judge(case, raised, before):
 
 
 def run(case):
+    if case.get('kind') == 'cli':
+        return run_cli(case)
     import contextlib
     import io as _io
     violations = []
@@ -286,6 +362,7 @@ def run(case):
             for idx, kind, path, arg in ops0:
                 for en in (errno.ENOSPC, errno.EIO, errno.EACCES):
                     plans.append({'kind': 'oserror', 'op': idx, 'errno': en})
+                plans.append({'kind': 'sigint_after', 'op': idx})     # SIGINT arrived while this call was in the kernel
                 if kind == 'write':
                     plans.append({'kind': 'short', 'op': idx, 'bytes': max(0, arg // 2)})
                     plans.append({'kind': 'short', 'op': idx, 'bytes': 0})
@@ -296,7 +373,14 @@ def run(case):
                                                           + list(range(nb - 20, nb))))
             for b in cuts:
                 plans.append({'kind': 'crash', 'path': OUT, 'byte': b})
-            sig_ns = sorted(set(list(range(1, 40)) + [rng.randrange(1, 400) for _ in range(30)]))
+            # how many monitored instructions does the create-binary stage execute? (dry run, never fires)
+            call_assemble(case, None, instr_n=10 ** 9)
+            n_instr = getattr(call_assemble, 'instr_events', 0)
+            if n_instr <= 400:
+                sig_ns = list(range(1, n_instr + 2))          # EVERY instruction of the stage
+            else:
+                sig_ns = sorted(set(list(range(1, 80)) + list(range(n_instr - 150, n_instr + 2)) +
+                                    [rng.randrange(1, n_instr) for _ in range(150)]))
             for plan_ in plans:
                 raised, fired, before = call_assemble(case, plan_)
                 evals += 1
